@@ -13,6 +13,7 @@ package c07
 
 import (
 	"context"
+	"encoding/json"
 	"fmt"
 	"hash/fnv"
 	"os"
@@ -33,6 +34,31 @@ import (
 func init() {
 	evid.Register(&evid.Check{ID: "C07", Level: "exploration", Run: run,
 		QuickBudget: 5 * time.Minute, ThoroughBudget: 14 * time.Minute})
+	evid.RegisterReplay("C07", replay)
+}
+
+// replay re-runs all library-level oracles on the recorded input text of one case.
+func replay(raw json.RawMessage) (string, bool) {
+	var c Case
+	if err := json.Unmarshal(raw, &c); err != nil {
+		return err.Error(), false
+	}
+	c.hint, c.site = -1, "replay"
+	e := &explorer{r: evid.NewRun("C07", "replay", "exploration", time.Minute)}
+	var found []string
+	parsed := e.check1(c, nil, func(oracle, key, detail, out, sig string) {
+		if sig == "" {
+			sig = oracle
+		}
+		found = append(found, sig+": "+detail)
+	})
+	if !parsed {
+		return "input does not parse", false
+	}
+	if len(found) == 0 {
+		return "all oracles hold", false
+	}
+	return strings.Join(found, "\n"), true
 }
 
 const testdataDir = "/repo/private/buf/bufformat/testdata"
@@ -354,6 +380,8 @@ func isSpaceOnly(s string) bool { return strings.TrimSpace(s) == "" }
 var decorations = []decoration{
 	{"blk-after", func(g, t string) (string, bool) { return "/*" + t + "*/" + g, true }},
 	{"line-after", func(g, t string) (string, bool) { return " //" + t + "\n" + g, true }},
+	// a line comment whose text contains the block-comment terminator (e.g. "// see /* x */")
+	{"line-after-blockend", func(g, t string) (string, bool) { return " //" + t + " */\n" + g, true }},
 	{"blk-ownline", func(g, t string) (string, bool) { return g + "\n/*" + t + "*/\n", true }},
 	{"line-ownline", func(g, t string) (string, bool) { return g + "\n//" + t + "\n", true }},
 	{"blk-before", func(g, t string) (string, bool) { return g + "/*" + t + "*/", true }},
@@ -400,6 +428,9 @@ func variant(s *seed, gaps []int, decs []int) (string, []string, bool) {
 			return "", nil, false
 		}
 		if hasTag(decorations[decs[k]].name) {
+			if decorations[decs[k]].name == "line-after-blockend" {
+				tag += " */"
+			}
 			tags = append(tags, tag)
 		}
 		sb.WriteString(s.Text[prev:gs])
@@ -436,6 +467,7 @@ type stats struct {
 	roleChanged, detachedNotDemanded, inheritedFromSeed            atomic.Int64
 	idemChecked, outputDiffersFromInput                            atomic.Int64
 	pairCases, cliCases, cliExitChecked, cliChanged                atomic.Int64
+	parserPanics                                                   atomic.Int64
 	perDecoration                                                  [16]atomic.Int64
 }
 
@@ -459,9 +491,9 @@ func hashText(s string) uint64 {
 }
 
 // check runs all oracles on one input text. ctx describes the decoration site for signatures.
-func (e *explorer) check(c Case, tags []string, isBase bool) {
+func (e *explorer) check(c Case, tags []string, isBase bool) (parsed bool) {
 	var found []finding
-	e.check1(c, tags, func(oracle, key, detail, out, sig string) {
+	parsed = e.check1(c, tags, func(oracle, key, detail, out, sig string) {
 		found = append(found, finding{oracle, key, detail, out, sig})
 	})
 	if isBase {
@@ -491,15 +523,19 @@ func (e *explorer) check(c Case, tags []string, isBase bool) {
 		}
 		e.r.Violate(sig, f.oracle+": "+f.detail, cc)
 	}
+	return parsed
 }
 
-func (e *explorer) check1(c Case, tags []string, violate func(oracle, key, detail, out, sig string)) {
+func (e *explorer) check1(c Case, tags []string, violate func(oracle, key, detail, out, sig string)) (parsed bool) {
 	r := e.r
 	st := &e.st
 	inFile, err := parse(c.Seed, c.Input)
 	if err != nil {
 		st.unparseable.Add(1)
-		return
+		if strings.HasPrefix(err.Error(), "parser panic") {
+			st.parserPanics.Add(1)
+		}
+		return false
 	}
 	r.Eval(1)
 	st.formatted.Add(1)
@@ -514,11 +550,11 @@ func (e *explorer) check1(c Case, tags []string, violate func(oracle, key, detai
 	}
 	if panicked != "" {
 		violate("panic", panicked, panicked, "", "panic/"+panicClass(inFile, c.Context))
-		return
+		return true
 	}
 	if ferr != nil {
 		violate("format-error", ferr.Error(), ferr.Error(), out, "")
-		return
+		return true
 	}
 	if out != c.Input {
 		st.outputDiffersFromInput.Add(1)
@@ -534,7 +570,7 @@ func (e *explorer) check1(c Case, tags []string, violate func(oracle, key, detai
 			}
 		}
 		violate("output-unparseable", stripPos(err.Error()), err.Error(), out, sig)
-		return
+		return true
 	}
 
 	// (2) same descriptors
@@ -542,7 +578,7 @@ func (e *explorer) check1(c Case, tags []string, violate func(oracle, key, detai
 	outView, outRes, err2 := view(outFile)
 	if err1 != nil || err2 != nil {
 		r.Incomplete(fmt.Sprintf("no descriptor for %s: %v %v", c.Seed, err1, err2))
-		return
+		return true
 	}
 	st.descCompared.Add(1)
 	if !proto.Equal(inView.fd, outView.fd) {
@@ -624,6 +660,7 @@ func (e *explorer) check1(c Case, tags []string, violate func(oracle, key, detai
 		}
 		violate("not-idempotent", d[strings.Index(d, ":")+1:], "format(format(x)) != format(x): "+d, out, sig)
 	}
+	return true
 }
 
 // declKind is the kind of the last element of a declaration key ("field", "dependency", ...).
@@ -951,7 +988,7 @@ func stripScratch(s, scratch string) string { return strings.ReplaceAll(s, scrat
 func run(r *evid.Run) {
 	r.Rule("seeds = every non-golden .proto under bufformat/testdata + hand-written texts covering every AST node kind; " +
 		"for every seed: the undecorated text, and for EVERY token gap (before each token incl. EOF) x EVERY decoration of the " +
-		"alphabet {/*c*/ after prev token, //c after prev token, /*c*/ on own line, //c on own line, /*c*/ glued before next token, " +
+		"alphabet {/*c*/ after prev token, //c after prev token, '//c */' after prev token, /*c*/ on own line, //c on own line, /*c*/ glued before next token, " +
 		"detached //c between blank lines, blank line, line break, ';', removal of the gap's whitespace} one variant; thorough adds every " +
 		"pair of decorations in every two gaps at distance 1 and 2. A case is counted (distinct, by text hash) when the variant parses; " +
 		"variants that do not parse are skipped and counted. Inserted comment words are unique per (gap, decoration).")
@@ -1044,7 +1081,9 @@ func run(r *evid.Run) {
 			}
 			c := Case{Seed: w.s.Name, Gaps: []int{w.g}, Decorations: []string{decorations[d].name},
 				Context: decorations[d].name + "@" + gapContext(w.s, w.g), Input: text, hint: gapOffset(w.s, w.g), site: gapSite(w.s, w.g)}
-			e.check(c, tags, false)
+			if !e.check(c, tags, false) {
+				continue
+			}
 			e.st.perDecoration[d].Add(1)
 			r.Distinct(w.s.Name + "\x00" + text)
 			r.SampleEvery(i*nd+d, 7919, func() any {
@@ -1085,7 +1124,9 @@ func run(r *evid.Run) {
 						Context: "pair:" + decorations[d1].name + "@" + gapContext(w.s, w.g) + "+" +
 							decorations[d2].name + "@" + gapContext(w.s, w.g+dist),
 						Input: text, hint: gapOffset(w.s, w.g), site: gapSite(w.s, w.g)}
-					e.check(c, tags, false)
+					if !e.check(c, tags, false) {
+						continue
+					}
 					e.st.pairCases.Add(1)
 					r.Distinct(w.s.Name + "\x00" + text)
 				}
@@ -1111,6 +1152,7 @@ func run(r *evid.Run) {
 	r.Set("variants_not_applicable", st.notApplicable.Load())
 	r.Set("variants_duplicate_text", st.duplicateText.Load())
 	r.Set("variants_unparseable_skipped", st.unparseable.Load())
+	r.Set("variants_unparseable_protocompile_parser_panicked", st.parserPanics.Load())
 	r.Set("variants_formatted", st.formatted.Load())
 	r.Set("clause_output_differs_from_input", st.outputDiffersFromInput.Load())
 	r.Set("clause_descriptor_compared", st.descCompared.Load())
